@@ -307,11 +307,15 @@ impl Intent {
 			fmt: Some(fmt),
 			comp: Some(comp),
 			tiles: tiles.clone(),
-			cover_min: bbox_of(tiles.iter().filter(|(_, p)| !p.is_empty()).map(|(c, _)| c)),
+			cover_min: bbox_of(tiles.iter().filter(|(_, p)| !p.is_empty() || matches!(container, "tar" | "directory" | "mbtiles")).map(|(c, _)| c)),
 			cover_max: bbox_of(tiles.keys()),
 			flag: None,
 			refusal_ok: false,
 		}
+	}
+	/// formats in which a 0-byte member / file / row is a tile like any other: it must be delivered (empty blob) and covered
+	pub fn empty_is_tile(&self) -> bool {
+		matches!(self.container, "tar" | "directory" | "mbtiles")
 	}
 	pub fn zoom_gap(&self) -> bool {
 		let zs: BTreeSet<u8> = self.tiles.keys().map(|c| c.0).collect();
@@ -346,7 +350,8 @@ pub fn judge(intent: &Intent, qs: &[Coord], res: &OpenRes) -> Option<(&'static s
 			(_, Look::Panic) => return Some(("panic", format!("get_tile_data{q:?} panicked"))),
 			(_, Look::Err) => return Some(("lookup-error", format!("get_tile_data{q:?} returned Err"))),
 			(Some(p), Look::Some(b)) if p == b => {}
-			(Some(p), Look::None) if p.is_empty() => {}
+			// versatiles / pmtiles cannot express a stored empty tile (length 0 = absent); tar, directory and mbtiles can
+			(Some(p), Look::None) if p.is_empty() && !intent.empty_is_tile() => {}
 			(Some(p), got) => return Some(("wrong-payload", format!("tile {q:?}: expected {} bytes {}, got {}", p.len(), trunc(&hexs(p), 40), match got { Look::Some(b) => format!("{} bytes {}", b.len(), trunc(&hexs(b), 40)), _ => "None".into() }))),
 			(None, Look::None) => {}
 			(None, Look::Some(b)) => return Some(("extra-tile", format!("tile {q:?} was not encoded but the reader returns {} bytes", b.len()))),
@@ -367,11 +372,15 @@ pub fn judge(intent: &Intent, qs: &[Coord], res: &OpenRes) -> Option<(&'static s
 	if let Some(q) = o.relook_mismatch {
 		return Some(("reuse-inconsistent", format!("get_tile_data{q:?} answers differently when the same reader is asked again after the bulk reads")));
 	}
-	judge_streams(&intent.tiles, &o.streams)
+	judge_streams_with(&intent.tiles, &o.streams, intent.empty_is_tile())
 }
 
 /// bulk path: every box read through get_bbox_tile_stream gives exactly the encoded tiles of the box, each once
 pub fn judge_streams(tiles: &TileMap, streams: &[StreamRes]) -> Option<(&'static str, String)> {
+	judge_streams_with(tiles, streams, false)
+}
+/// `empty_is_tile`: a stored empty payload has to be streamed too (tar, directory, mbtiles)
+pub fn judge_streams_with(tiles: &TileMap, streams: &[StreamRes], empty_is_tile: bool) -> Option<(&'static str, String)> {
 	for s in streams {
 		let inside = |c: &Coord| c.0 == s.z && s.bx.0 <= c.1 && c.1 <= s.bx.2 && s.bx.1 <= c.2 && c.2 <= s.bx.3;
 		let got = match &s.got {
@@ -392,7 +401,7 @@ pub fn judge_streams(tiles: &TileMap, streams: &[StreamRes]) -> Option<(&'static
 				_ => {}
 			}
 		}
-		if let Some((c, _)) = tiles.iter().find(|(c, p)| inside(c) && !p.is_empty() && !seen.contains(*c)) {
+		if let Some((c, _)) = tiles.iter().find(|(c, p)| inside(c) && (empty_is_tile || !p.is_empty()) && !seen.contains(*c)) {
 			return Some(("stream-missing", format!("stream of level {} box {:?} does not yield the encoded tile {c:?}", s.z, s.bx)));
 		}
 	}
